@@ -260,7 +260,9 @@ def witness(entry):
 def main(tier):
     chk = run.Check("C19", tier, RULE)
     chk.assumptions = ASSUME
-    js = jobs(tier)
+    js = jobs(common.level("C19", tier))
+    if common.level("C19", tier) == "deep":
+        js = common.widen(js, by=(1,))
     for i, j in enumerate(js):
         j["want_sample"] = i % max(1, len(js) // 6) == 0
     js = common.rotate(js)
